@@ -28,6 +28,8 @@ def main():
     try:
         demo_cmd = meta.get("demo_cmd") or open(os.path.join(src, "demo", "RUN.txt")).read().strip()
         shutil.copytree(os.path.join(src, "demo"), os.path.join(wt, "demo"), dirs_exist_ok=True)
+        # some demonstrations address their files as out/<id>/demo/… (the layout they were written in)
+        shutil.copytree(os.path.join(src, "demo"), os.path.join(wt, "out", os.path.basename(os.path.normpath(src)), "demo"), dirs_exist_ok=True)
         rc0, out0 = sh(demo_cmd, wt, 900)
         rec["demo_without_patch"] = {"exit": rc0, "tail": out0[-400:]}
         rc, out = sh(["git", "apply", "--whitespace=nowarn", os.path.join(src, "patch.diff")], wt)
@@ -39,8 +41,8 @@ def main():
         rc1, out1 = sh(demo_cmd, wt, 900)
         rec["demo_with_patch"] = {"exit": rc1, "tail": out1[-600:]}
         # remove the demo test file(s) the demo command copied into packages before running the suite
-        sh("git status --porcelain | grep '^??' | awk '{print $2}' | grep -v '^demo' | xargs -r rm -rf", wt)
-        pkgs = sh("go list ./... | grep -v /demo", wt)[1].split()
+        sh("git status --porcelain | grep '^??' | awk '{print $2}' | grep -v '^demo' | grep -v '^out' | xargs -r rm -rf", wt)
+        pkgs = sh("go list ./... | grep -v /demo | grep -v /out/", wt)[1].split()
         rc2, out2 = sh(["go", "test", "-vet=off", "-count=1", "-timeout", "25m"] + pkgs, wt, 2400)
         failed = sorted(set(re.findall(r"^--- FAIL: (\S+)", out2, re.M)))
         still = []
